@@ -68,6 +68,7 @@ struct InReader {
     pos: usize,
     intr: Vec<usize>,
     rfail: Option<usize>,
+    chunks: Vec<usize>,
     calls: usize,
     log: bool,
     sh: Sh,
@@ -92,6 +93,22 @@ impl Read for InReader {
         }
         if buf.is_empty() {
             return Ok(0);
+        }
+        // prescribed delivery: up to chunks[call] bytes of the finite input per read (never past a fault position)
+        if !self.chunks.is_empty() && self.pos < self.prefix.len() {
+            let mut n = self.chunks[call % self.chunks.len()].max(1).min(buf.len()).min(self.prefix.len() - self.pos);
+            if let Some(f) = self.rfail {
+                if f > self.pos {
+                    n = n.min(f - self.pos);
+                }
+            }
+            buf[..n].copy_from_slice(&self.prefix[self.pos..self.pos + n]);
+            self.pos += n;
+            sh.pulled = self.pos;
+            if self.log {
+                sh.ev.push(json!(["r", n]));
+            }
+            return Ok(n);
         }
         let b = if self.pos < self.prefix.len() {
             self.prefix[self.pos]
@@ -274,6 +291,10 @@ fn run_case(case: &Value) -> Value {
         .map(|a| a.iter().filter_map(|x| x.as_u64().map(|u| u as usize)).collect())
         .unwrap_or_default();
     let rfail = case["rfail"].as_u64().map(|u| u as usize);
+    let chunks: Vec<usize> = case["chunks"]
+        .as_array()
+        .map(|a| a.iter().filter_map(|x| x.as_u64().map(|u| u as usize)).collect())
+        .unwrap_or_default();
     let wfail = case["wfail"].as_u64().map(|u| u as usize);
     let efail = case["efail"].as_u64().map(|u| u as usize);
     let wmax = case["wmax"].as_u64().unwrap_or(0) as usize;
@@ -304,6 +325,7 @@ fn run_case(case: &Value) -> Value {
             pos: 0,
             intr: intr.clone(),
             rfail,
+            chunks: chunks.clone(),
             calls: 0,
             log,
             sh: sh2.clone(),
